@@ -243,13 +243,47 @@ func termStrings(ts []*Term) []string {
 	return out
 }
 
+// removingLookup: f is a method of the transaction dispatcher that deletes an entry of its table.
+func (w *World) removingLookup(f *ssa.Function) bool {
+	if f == nil || !strings.HasPrefix(shortFuncName(f), "(*transactions.Dispatcher[") {
+		return false
+	}
+	txns := w.P.Field("transactions", "Dispatcher", "txns")
+	del := false
+	eachInstr([]*ssa.Function{f}, func(_ *ssa.Function, ins ssa.Instruction) {
+		if c := callInstrCommon(ins); c != nil {
+			if b, ok := c.Value.(*ssa.Builtin); ok && b.Name() == "delete" && len(c.Args) == 2 && fieldOfAddr(c.Args[0]) != nil && fieldOfAddr(c.Args[0]).Name() == txns.Name() {
+				del = true
+			}
+		}
+	})
+	return del
+}
+
 func c07r2(w *World, rr *RuleRun) {
 	w.LK.Run()
 	mu := w.LK.ClassByName("Server.mu")
-	have := w.dispatcherMethod("Have")
-	pop := w.dispatcherMethod("Pop")
 	pp := w.P.Func("(*Server).processPacket")
 	hr := w.P.Func("(*transaction).handleResponse")
+	// first the decidable wrong shape: the response handler runs on a transaction obtained by a
+	// dispatcher lookup that leaves it registered - every repeated copy of the reply is then
+	// delivered again (and the handler's one-slot channel blocks the third for ever)
+	for _, s := range w.AllCallsTo(w.P.LibFuncs, hr) {
+		v := callInstrCommon(s).Args[0]
+		if ex, ok := v.(*ssa.Extract); ok {
+			v = ex.Tuple
+		}
+		c, ok := v.(*ssa.Call)
+		if !ok {
+			continue
+		}
+		if f := c.Call.StaticCallee(); f != nil && strings.HasPrefix(shortFuncName(f), "(*transactions.Dispatcher[") && !w.removingLookup(f) {
+			rr.At(w, s, "the reply is delivered to the transaction that was popped for its key", false, "receiver comes from "+shortFuncName(f)+", which leaves the transaction registered: a repeated reply is delivered again")
+			return
+		}
+	}
+	have := w.dispatcherMethod("Have")
+	pop := w.dispatcherMethod("Pop")
 	for _, site := range w.AllCallsTo(w.P.LibFuncs, pop) {
 		c := callInstrCommon(site)
 		kv := c.Args[1]
